@@ -33,10 +33,11 @@ CLAIM = ('Proved in Coq END TO END for the model, Numbers naming without and wit
          "a_r1999-01-01_00-00-00.log, chrono's lenient a_r1970-1-1_0-0-0.log, a number of any length (a_r1.log), a stranger's "
          'a_rCURRENT.log (examples evaluated in Coq in Flw/MemberPattern.v, Flw/TsdForeign.v, Flw/TsForeign.v). NumbersDirect '
          'with a cleanup strategy is proved as well (C14_numbersdirect_cleanup_foreign_ignored, '
-         'C14_numbersdirect_cleanup_foreign_dir: foreign files are neither removed nor compressed). Partial: the time-stamp '
-         'namings combined with a cleanup strategy, and histories with queries, reopen, faults or kills, are decided by the twin '
-         'runs only. ')
-THEOREMS = ["C14_numbers_foreign_ignored", "C14_numbers_stream_foreign", "C14_numbers_cleanup_foreign_ignored", "C14_foreign_ignored", "C14_listing_accepts_family_only", "C14_listing_accepts_all_family", "C14_family_name_shape", "C14_listing_prefix", "C14_numbersdirect_foreign_ignored", "C14_numbersdirect_stream_foreign", "C14_timestampsdirect_foreign_ignored", "C14_timestampsdirect_stream_foreign", "C14_timestamps_foreign_ignored", "C14_timestamps_stream_foreign", "C14_ts_member_shape", "C14_num_member_pattern", "C14_numd_member_pattern", "C14_tsd_member_pattern", "C14_ts_member_pattern", "C14_num_foreign_non_digit", "C14_number_files_foreign_ts", "C14_ts_files_foreign_number", "C14_numbersdirect_cleanup_foreign_ignored", "C14_numbersdirect_cleanup_foreign_dir"]
+         'C14_numbersdirect_cleanup_foreign_dir: foreign files are neither removed nor compressed). The time-stamp namings with '
+         'a cleanup strategy are proved as well (C14_timestampsdirect_cleanup_foreign_ignored, '
+         'C14_timestamps_cleanup_foreign_ignored and the _foreign_dir variants). Partial: histories with queries, reopen, faults '
+         'or kills, are decided by the twin runs only. ')
+THEOREMS = ["C14_numbers_foreign_ignored", "C14_numbers_stream_foreign", "C14_numbers_cleanup_foreign_ignored", "C14_foreign_ignored", "C14_listing_accepts_family_only", "C14_listing_accepts_all_family", "C14_family_name_shape", "C14_listing_prefix", "C14_numbersdirect_foreign_ignored", "C14_numbersdirect_stream_foreign", "C14_timestampsdirect_foreign_ignored", "C14_timestampsdirect_stream_foreign", "C14_timestamps_foreign_ignored", "C14_timestamps_stream_foreign", "C14_ts_member_shape", "C14_num_member_pattern", "C14_numd_member_pattern", "C14_tsd_member_pattern", "C14_ts_member_pattern", "C14_num_foreign_non_digit", "C14_number_files_foreign_ts", "C14_ts_files_foreign_number", "C14_numbersdirect_cleanup_foreign_ignored", "C14_numbersdirect_cleanup_foreign_dir", "C14_timestampsdirect_cleanup_foreign_ignored", "C14_timestampsdirect_cleanup_foreign_dir", "C14_timestamps_cleanup_foreign_ignored", "C14_timestamps_cleanup_foreign_dir"]
 TRUSTED = ["modelled, not verified: read_dir, Path::extension/file_stem (std semantics written out in coq/Base/PathName.v and tied by the try_from cases of C16)"]
 ASSUMPTIONS = ["foreign names are generated from a near-miss grammar; file modification times are not compared (content and existence are)"]
 RULE = ("pairs of cases: (a) 1-4 foreign files/sub-directories created first - other separator, longer/shorter basename with common "
